@@ -538,6 +538,7 @@ class Exec:
                 name = n2
             name = name.split('::')[-1]
             return adt(name, None, *[self.operand(st, fr, x.split(':', 1)[1]) for x in split_top(m.group(2))])
+        if re.match(r'(std::option::)?Option::<.*>::None$', s): return NONE
         m = re.match(r'([\w:]+)$', s)                                 # unit struct / fieldless variant
         if m:
             parts = s.split('::'); return adt(parts[-2], parts[-1]) if len(parts) >= 2 and parts[-2][0].isupper() else adt(parts[-1], None)
